@@ -12,8 +12,10 @@ SQL expression}:
   Core INSERT   single (params dict / .values()), executemany (homogeneous keys),
                 multi-VALUES ``.values([..])``, each with / without RETURNING or
                 return_defaults()
-  Core UPDATE   single (one row or a group of rows per statement), executemany with
-                bindparam() criteria, with / without return_defaults()
+  Core UPDATE   single (one row or a group of rows per statement; SET values given as
+                values(**kw), values({Column: v}), ordered_values() with string keys or with
+                Column-object keys in shuffled order, or as execute() parameters), executemany
+                with bindparam() criteria, with / without return_defaults()
   ORM           add_all + flush with per-object attribute states {unset, value, None}
                 (heterogeneous -> the unit of work groups them), then modify + flush
   negative      Core executemany whose later dict lacks a key of the first: must raise
@@ -341,7 +343,11 @@ def drive(ctx, sa, orm, rng, eng, path, schema, log, ps, k):
                 if form == "single_params":
                     res = c.execute(stmt, rows[0][1])
                 elif form == "single_values":
-                    res = c.execute(stmt.values(**rows[0][1]))
+                    if rng.random() < 0.5:
+                        res = c.execute(stmt.values(**rows[0][1]))
+                    else:   # the same values keyed by Column objects
+                        desc["keys"] = "columns"
+                        res = c.execute(stmt.values({t.c[kk]: vv for kk, vv in rows[0][1].items()}))
                 elif form == "many":
                     res = c.execute(stmt, [d for _, d, _ in rows])
                 else:
@@ -506,13 +512,26 @@ def drive(ctx, sa, orm, rng, eng, path, schema, log, ps, k):
                 if form == "many":
                     c.execute(stmt, [dict(d, b_p=tg[0]) for _, tg, d, _ in psets])
                 else:
-                    if rng.random() < 0.5:
+                    # how the SET values are handed over: values(**kw), values({Column: v}),
+                    # ordered_values() with string keys / Column keys (shuffled order), or as
+                    # execute() parameters
+                    hows = ["values_kw", "values_columns", "ordered_names", "ordered_columns"]
+                    if not any(st == "expr" for st, _ in psets[0][3].values()):
+                        hows.append("params")
+                    how = desc["how"] = rng.choice(hows)
+                    items = list(psets[0][2].items())
+                    rng.shuffle(items)
+                    if how == "values_kw":
                         res = c.execute(stmt.values(**psets[0][2]))
+                    elif how == "values_columns":
+                        res = c.execute(stmt.values({t.c[kk]: vv for kk, vv in items}))
+                    elif how == "ordered_names":
+                        res = c.execute(stmt.ordered_values(*items))
+                    elif how == "ordered_columns":
+                        res = c.execute(stmt.ordered_values(*[(t.c[kk], vv) for kk, vv in items]))
                     else:
-                        if any(st == "expr" for st, _ in psets[0][3].values()):
-                            res = c.execute(stmt.values(**psets[0][2]))
-                        else:
-                            res = c.execute(stmt, psets[0][2])
+                        res = c.execute(stmt, psets[0][2])
+                    ctx.seen("update_values_how", how)
                     if ret == "return_defaults" and form == "single_row":
                         rd = res.returned_defaults
                         res_info["rd"] = dict(rd._mapping) if rd is not None else None
